@@ -701,6 +701,156 @@ func swap(file *ast.File) int {
 	return n
 }
 
+// retvar names the results of a returned call: `return f(x)` becomes
+// `rvZzN_0, rvZzN_1 := f(x); return rvZzN_0, rvZzN_1` (statement lists only).
+func retvar(file *ast.File, info *types.Info) int {
+	n := 0
+	mapLists(file, func(list []ast.Stmt) []ast.Stmt {
+		var out []ast.Stmt
+		for _, st := range list {
+			rs, ok := st.(*ast.ReturnStmt)
+			if !ok || len(rs.Results) != 1 {
+				out = append(out, st)
+				continue
+			}
+			call, ok := rs.Results[0].(*ast.CallExpr)
+			if !ok {
+				out = append(out, st)
+				continue
+			}
+			// conversions and builtins stay
+			if tv, ok := info.Types[call.Fun]; ok && (tv.IsType() || tv.IsBuiltin()) {
+				out = append(out, st)
+				continue
+			}
+			k := 1
+			if tup, ok := info.TypeOf(call).(*types.Tuple); ok {
+				k = tup.Len()
+			}
+			if k == 0 {
+				out = append(out, st)
+				continue
+			}
+			n++
+			var lhs, res []ast.Expr
+			for i := 0; i < k; i++ {
+				nm := fmt.Sprintf("rvZz%d_%d", n, i)
+				lhs = append(lhs, &ast.Ident{Name: nm, NamePos: rs.Pos()})
+				res = append(res, &ast.Ident{Name: nm, NamePos: rs.Pos()})
+			}
+			out = append(out, &ast.AssignStmt{Lhs: lhs, Tok: token.DEFINE, Rhs: []ast.Expr{call}, TokPos: rs.Pos()})
+			out = append(out, &ast.ReturnStmt{Return: rs.Return, Results: res})
+		}
+		return out
+	})
+	return n
+}
+
+// argvar names a call that is the only call among the arguments of the call a
+// statement consists of: `f(a, g(x))` becomes `avZzN := g(x); f(a, avZzN)`
+// (expression statements, single-call assignments and single-call returns).
+func argvar(file *ast.File, info *types.Info) int {
+	n := 0
+	hasCall := func(e ast.Expr) bool {
+		found := false
+		ast.Inspect(e, func(x ast.Node) bool {
+			switch y := x.(type) {
+			case *ast.CallExpr:
+				if tv, ok := info.Types[y.Fun]; ok && tv.IsType() {
+					return true // a conversion evaluates its operand only
+				}
+				found = true
+			case *ast.FuncLit:
+				found = true
+			case *ast.UnaryExpr:
+				if y.Op == token.ARROW {
+					found = true
+				}
+			}
+			return !found
+		})
+		return found
+	}
+	outer := func(st ast.Stmt) *ast.CallExpr {
+		switch v := st.(type) {
+		case *ast.ExprStmt:
+			c, _ := v.X.(*ast.CallExpr)
+			return c
+		case *ast.AssignStmt:
+			if len(v.Rhs) == 1 {
+				for _, l := range v.Lhs {
+					if hasCall(l) {
+						return nil
+					}
+				}
+				c, _ := v.Rhs[0].(*ast.CallExpr)
+				return c
+			}
+		case *ast.ReturnStmt:
+			if len(v.Results) == 1 {
+				c, _ := v.Results[0].(*ast.CallExpr)
+				return c
+			}
+		}
+		return nil
+	}
+	mapLists(file, func(list []ast.Stmt) []ast.Stmt {
+		var out []ast.Stmt
+		for _, st := range list {
+			oc := outer(st)
+			if oc == nil || oc.Ellipsis.IsValid() {
+				out = append(out, st)
+				continue
+			}
+			if tv, ok := info.Types[oc.Fun]; ok && (tv.IsType() || tv.IsBuiltin()) {
+				out = append(out, st)
+				continue
+			}
+			if hasCall(oc.Fun) {
+				out = append(out, st)
+				continue
+			}
+			idx := -1
+			okAll := true
+			for i, a := range oc.Args {
+				if !hasCall(a) {
+					continue
+				}
+				ic, isCall := a.(*ast.CallExpr)
+				if !isCall || idx != -1 {
+					okAll = false
+					break
+				}
+				if _, isTup := info.TypeOf(ic).(*types.Tuple); isTup || info.TypeOf(ic) == nil {
+					okAll = false
+					break
+				}
+				if b, ok := info.TypeOf(ic).(*types.Basic); ok && b.Info()&types.IsUntyped != 0 {
+					okAll = false
+					break
+				}
+				for _, ia := range ic.Args {
+					if hasCall(ia) {
+						okAll = false
+					}
+				}
+				idx = i
+			}
+			if !okAll || idx == -1 {
+				out = append(out, st)
+				continue
+			}
+			n++
+			nm := fmt.Sprintf("avZz%d", n)
+			out = append(out, &ast.AssignStmt{Lhs: []ast.Expr{&ast.Ident{Name: nm, NamePos: st.Pos()}}, Tok: token.DEFINE, Rhs: []ast.Expr{oc.Args[idx]}, TokPos: st.Pos()})
+			oc.Args[idx] = &ast.Ident{Name: nm, NamePos: oc.Args[idx].Pos()}
+			out = append(out, st)
+		}
+		return out
+	})
+	return n
+}
+
 func main() {
 	dir := os.Args[1]
 	mode := "rename"
@@ -719,7 +869,7 @@ func main() {
 		for i, file := range pk.Syntax {
 			path := pk.CompiledGoFiles[i]
 			changed := false
-			if mode == "flip" || mode == "switch" || mode == "hoist" || mode == "fold" || mode == "incdec" || mode == "condvar" || mode == "unswitch" || mode == "elsestrip" || mode == "elseadd" || mode == "nop" || mode == "swap" {
+			if mode == "flip" || mode == "switch" || mode == "hoist" || mode == "fold" || mode == "incdec" || mode == "condvar" || mode == "unswitch" || mode == "elsestrip" || mode == "elseadd" || mode == "nop" || mode == "swap" || mode == "retvar" || mode == "argvar" {
 				k := 0
 				switch mode {
 				case "flip":
@@ -742,6 +892,10 @@ func main() {
 					k = nop(file)
 				case "swap":
 					k = swap(file)
+				case "retvar":
+					k = retvar(file, pk.TypesInfo)
+				case "argvar":
+					k = argvar(file, pk.TypesInfo)
 				default:
 					k = hoist(file, pk.TypesInfo)
 				}
